@@ -40,6 +40,28 @@ Proof. destruct r; simpl; auto. Qed.
 Definition same_pos (a b : pstate) : Prop :=
   ps_toks a = ps_toks b /\ ps_cur a = ps_cur b /\ ps_end a = ps_end b /\ ps_eof a = ps_eof b.
 
+(* the tokens still to be fetched in st' are a suffix of those in st *)
+Definition suf (st st' : pstate) : Prop := exists k, ps_toks st' = skipn k (ps_toks st).
+
+Lemma suf_refl st : suf st st.
+Proof. exists O. reflexivity. Qed.
+
+Lemma skipn_add {A} (l : list A) : forall k j, skipn j (skipn k l) = skipn (k + j) l.
+Proof.
+  induction l as [|x r IH]; intros k j.
+  - rewrite !skipn_nil. reflexivity.
+  - destruct k; simpl; [reflexivity | apply IH].
+Qed.
+
+Lemma suf_trans a b c : suf a b -> suf b c -> suf a c.
+Proof. intros [k H] [j J]. exists (k + j)%nat. rewrite J, H. apply skipn_add. Qed.
+
+Lemma suf_same a b : same_pos a b -> suf b a.
+Proof. intros [T _]. exists O. simpl. exact T. Qed.
+
+Lemma suf_same' a b : same_pos a b -> suf a b.
+Proof. intros [T _]. exists O. simpl. symmetry. exact T. Qed.
+
 Lemma same_pos_B a b : same_pos a b -> B a = B b.
 Proof. intros [T [C _]]. unfold B, mu, hasc. rewrite T, C. reflexivity. Qed.
 
@@ -60,25 +82,26 @@ Proof. unfold cur_is, hasc. destruct (ps_cur st); [reflexivity | discriminate]. 
 Lemma advance_spec st : good st ->
   match advance st with
   | AdvTok st' => good st' /\ S (mu st') = mu st /\ hasc st' = 1%nat
-                  /\ ps_nesting st' = ps_nesting st /\ ps_complete st' = ps_complete st
+                  /\ ps_nesting st' = ps_nesting st /\ ps_complete st' = ps_complete st /\ suf st st'
   | AdvStop st' => good st' /\ mu st' = 0%nat /\ mu st = 0%nat /\ ps_eof st' = true
                    /\ ps_cur st' = ps_cur st
-                   /\ ps_nesting st' = ps_nesting st /\ ps_complete st' = ps_complete st
+                   /\ ps_nesting st' = ps_nesting st /\ ps_complete st' = ps_complete st /\ suf st st'
   | AdvErr e => forall A, @lift_err A e = Err ParseErr
   end.
 Proof.
   intros [G1 G2]. unfold advance, mu, hasc, good.
   destruct (ps_toks st) as [|t r] eqn:T.
   - destruct (ps_end st) as [cs|e|] eqn:E.
-    + simpl. repeat split; auto; discriminate.
+    + simpl. repeat split; auto; try discriminate. exists O. simpl. symmetry. exact T.
     + intros A. simpl. rewrite (G2 e eq_refl). reflexivity.
     + congruence.
-  - simpl. repeat split; auto.
+  - simpl. repeat split; auto. exists 1%nat. simpl. rewrite T. reflexivity.
 Qed.
 
 Lemma require_next_spec st : good st ->
   rok (require_next st) (fun st' => good st' /\ S (mu st') = mu st /\ hasc st' = 1%nat
-                                    /\ ps_nesting st' = ps_nesting st /\ ps_complete st' = ps_complete st).
+                                    /\ ps_nesting st' = ps_nesting st /\ ps_complete st' = ps_complete st
+                                    /\ suf st st').
 Proof.
   intros G. unfold require_next. pose proof (advance_spec st G) as S.
   destruct (advance st); simpl; [exact S | reflexivity | rewrite S; reflexivity].
@@ -88,15 +111,17 @@ Lemma next_or_none_spec st : good st ->
   rok (next_token_or_none st)
       (fun st' => good st' /\ ps_nesting st' = ps_nesting st /\ ps_complete st' = ps_complete st
                   /\ ((S (mu st') = mu st /\ hasc st' = 1%nat)
-                      \/ (mu st' = 0%nat /\ mu st = 0%nat /\ hasc st' = 0%nat /\ ps_eof st' = true))).
+                      \/ (mu st' = 0%nat /\ mu st = 0%nat /\ hasc st' = 0%nat /\ ps_eof st' = true))
+                  /\ suf st st').
 Proof.
   intros G. unfold next_token_or_none. pose proof (advance_spec st G) as S.
   destruct (advance st) as [st'|st'|e]; simpl.
-  - destruct S as [A [B0 [C [D E]]]].
-    split; [exact A|]. split; [exact D|]. split; [exact E|]. left. split; assumption.
-  - destruct S as [A [B0 [C [D [E [F0 F1]]]]]].
+  - destruct S as [A [B0 [C [D [E SF]]]]].
+    split; [exact A|]. split; [exact D|]. split; [exact E|]. split; [left; split; assumption | exact SF].
+  - destruct S as [A [B0 [C [D [E [F0 [F1 SF]]]]]]].
     split; [exact A|]. split; [exact F0|]. split; [exact F1|].
-    right. unfold mu, hasc in *. simpl. auto.
+    split; [right; unfold mu, hasc in *; simpl; auto|].
+    destruct SF as [k K]. exists k. simpl. exact K.
   - rewrite S. reflexivity.
 Qed.
 
@@ -105,7 +130,7 @@ Proof. destruct r; simpl; auto. Qed.
 
 (* what every sub-parser guarantees about the state it returns *)
 Definition post (st st' : pstate) : Prop :=
-  good st' /\ (B st' <= B st)%nat.
+  good st' /\ (B st' <= B st)%nat /\ suf st st'.
 
 Lemma B_same_pos a b : same_pos a b -> B a = B b.
 Proof. apply same_pos_B. Qed.
@@ -119,23 +144,25 @@ Lemma comma_loop_spec : forall f st kids, good st -> (B st + 1 <= f)%nat ->
 Proof.
   induction f as [|f IH]; intros st kids G HB; [lia|].
   cbn [Newick.comma_loop].
-  destruct (cur_is st COMMA) eqn:C; [| simpl; split; [exact G | lia]].
+  destruct (cur_is st COMMA) eqn:C; [| simpl; split; [exact G | split; [lia | apply suf_refl]]].
   pose proof (pull_same st) as PS. destruct (pull_comments st) as [cs st1]. simpl in PS.
   destruct PS as [SP _].
   eapply rok_bind; [apply require_next_spec; eapply same_pos_good; eauto|].
-  intros st2 [G2 [M2 [H2 _]]].
+  intros st2 [G2 [M2 [H2 [_ [_ SF2]]]]].
   pose proof (B_after_fetch st1 st2 M2 H2) as E. rewrite (same_pos_B _ _ SP) in E.
   pose proof (cur_is_hasc _ _ C) as HC.
   assert (hasc st1 = 1%nat) as HC1 by (destruct SP as [_ [CC _]]; unfold hasc in *; rewrite CC; exact HC).
   eapply rok_impl; [apply IH; [exact G2 | lia]|].
-  intros [k st3] [G3 B3]. simpl in *. split; [exact G3 | lia].
+  intros [k st3] [G3 [B3 SF3]]. simpl in *. split; [exact G3|]. split; [lia|].
+  eapply suf_trans; [apply (suf_same _ _ SP)|]. eapply suf_trans; eassumption.
 Qed.
 
 (* the label / edge-length / terminator loop *)
 Definition lpost (st st' : pstate) : Prop :=
   good st' /\ (B st' <= B st)%nat
   /\ (ps_complete st' = ps_complete st \/ (B st' < B st)%nat)
-  /\ (cur_is st RPAREN = false -> cur_is st COMMA = false -> (B st' < B st)%nat).
+  /\ (cur_is st RPAREN = false -> cur_is st COMMA = false -> (B st' < B st)%nat)
+  /\ suf st st'.
 
 Lemma set_complete_same st b : same_pos (set_complete st b) st.
 Proof. unfold same_pos, set_complete; simpl; auto. Qed.
@@ -165,34 +192,40 @@ Proof.
   { (* ":" *)
     pose proof (cur_is_hasc _ _ EC) as HC.
     eapply rok_bind; [apply require_next_spec; exact G1|].
-    intros st2 [G2 [M2 [H2 [N2 C2]]]].
+    intros st2 [G2 [M2 [H2 [N2 [C2 SF2]]]]].
     pose proof (after_tok st st1 st2 SP M2 H2) as E2.
+    assert (SFa : suf st st2) by (eapply suf_trans; [apply (suf_same _ _ SP) | exact SF2]).
     eapply rok_bind with (P := fun _ => True).
     { destruct (ro_suppress_edge_lengths o); [exact I|]. destruct (parse_len (cur_text st2)); simpl; auto. }
     intros nd1 _.
     pose proof (advance_spec st2 G2) as A. destruct (advance st2) as [st3|st3|e].
-    - destruct A as [G3 [M3 [H3 [N3 C3]]]].
+    - destruct A as [G3 [M3 [H3 [N3 [C3 SF3]]]]].
       assert (E3 : (B st3 + 2 = B st2)%nat) by (unfold B in *; lia).
       eapply rok_impl; [apply IH; [exact G3 | lia]|].
-      intros [nd' st4] [G4 [B4 _]]. simpl in *.
-      split; [exact G4|]. split; [lia|]. split; [right; lia|]. intros; lia.
+      intros [nd' st4] [G4 [B4 [_ [_ SF4]]]]. simpl in *.
+      split; [exact G4|]. split; [lia|]. split; [right; lia|]. split; [intros; lia|].
+      eapply suf_trans; [exact SFa|]. eapply suf_trans; eassumption.
     - rewrite TSR. reflexivity.
     - rewrite A. reflexivity. }
   destruct (cur_is st RPAREN) eqn:ER.
-  { simpl. split; [exact G1|]. rewrite (same_pos_B _ _ SP). split; [lia|]. split; [left; exact C1|]. intro X; congruence. }
+  { simpl. split; [exact G1|]. rewrite (same_pos_B _ _ SP). split; [lia|]. split; [left; exact C1|].
+    split; [intro X; congruence | apply (suf_same _ _ SP)]. }
   destruct (cur_is st SEMI) eqn:ES.
   { pose proof (cur_is_hasc _ _ ES) as HC.
     eapply rok_bind; [apply next_or_none_spec; eapply same_pos_good; [apply set_complete_same | exact G1]|].
-    intros st2 [G2 [N2 [C2 D2]]].
+    intros st2 [G2 [N2 [C2 [D2 SF2]]]].
     assert (X : (B st2 < B st)%nat).
     { pose proof (same_pos_trans _ _ _ (set_complete_same st1 true) SP) as SP2.
       destruct D2 as [[M2 H2] | [M2 [M0 [H2 _]]]].
       - pose proof (after_tok st _ st2 SP2 M2 H2). lia.
       - unfold B. rewrite M2, H2. unfold B in *. lia. }
     destruct (ps_nesting st2 =? 0); simpl; [|reflexivity].
-    split; [exact G2|]. split; [lia|]. split; [right; exact X|]. intros; exact X. }
+    split; [exact G2|]. split; [lia|]. split; [right; exact X|]. split; [intros; exact X|].
+    eapply suf_trans; [apply (suf_same _ _ SP)|].
+    eapply suf_trans; [apply (suf_same _ _ (set_complete_same st1 true)) | exact SF2]. }
   destruct (cur_is st COMMA) eqn:EM.
-  { simpl. split; [exact G1|]. rewrite (same_pos_B _ _ SP). split; [lia|]. split; [left; exact C1|]. intros _ X; congruence. }
+  { simpl. split; [exact G1|]. rewrite (same_pos_B _ _ SP). split; [lia|]. split; [left; exact C1|].
+    split; [intros _ X; congruence | apply (suf_same _ _ SP)]. }
   destruct (cur_is st LPAREN) eqn:EL; [reflexivity|].
   destruct lp; [reflexivity|].
   (* a label *)
@@ -207,11 +240,12 @@ Proof.
   pose proof (same_pos_trans _ _ _ SP1 SP) as SPs.
   assert (Gs : good s1) by (eapply same_pos_good; eauto).
   pose proof (advance_spec s1 Gs) as A. destruct (advance s1) as [st3|st3|e].
-  - destruct A as [G3 [M3 [H3 [N3 C3]]]].
+  - destruct A as [G3 [M3 [H3 [N3 [C3 SF3]]]]].
     pose proof (after_tok st s1 st3 SPs M3 H3) as E3.
     eapply rok_impl; [apply IH; [exact G3 | lia]|].
-    intros [nd' st4] [G4 [B4 _]]. simpl in *.
-    split; [exact G4|]. split; [lia|]. split; [right; lia|]. intros; lia.
+    intros [nd' st4] [G4 [B4 [_ [_ SF4]]]]. simpl in *.
+    split; [exact G4|]. split; [lia|]. split; [right; lia|]. split; [intros; lia|].
+    eapply suf_trans; [apply (suf_same _ _ SPs)|]. eapply suf_trans; eassumption.
   - rewrite TSR. reflexivity.
   - rewrite A. reflexivity.
 Qed.
@@ -220,7 +254,8 @@ Qed.
 Definition npost (st st' : pstate) : Prop :=
   good st' /\ (B st' <= B st)%nat
   /\ (ps_complete st' = true -> (B st' < B st)%nat)
-  /\ (cur_is st RPAREN = false -> cur_is st COMMA = false -> (B st' < B st)%nat).
+  /\ (cur_is st RPAREN = false -> cur_is st COMMA = false -> (B st' < B st)%nat)
+  /\ suf st st'.
 
 Definition P_node (f : nat) : Prop := forall st isint pre, good st -> (B st + 2 <= f)%nat ->
   rok (parse_node o f st isint pre) (fun r => npost st (snd r)).
@@ -240,23 +275,30 @@ Proof.
     match goal with |- rok (bind ?r _) _ =>
       assert (R : rok r (fun p => good (snd p) /\ (B (snd p) <= B st)%nat
                                  /\ (cur_is st LPAREN = true -> (B (snd p) + 2 <= B st)%nat)
-                                 /\ (cur_is st LPAREN = false -> same_pos (snd p) st))) end.
+                                 /\ (cur_is st LPAREN = false -> same_pos (snd p) st)
+                                 /\ suf st (snd p))) end.
     { destruct (cur_is st LPAREN) eqn:EL.
       - pose proof (cur_is_hasc _ _ EL) as HC.
         eapply rok_bind; [apply require_next_spec; exact G1|].
-        intros st2 [G2 [M2 [H2 _]]].
+        intros st2 [G2 [M2 [H2 [_ [_ SF2]]]]].
         pose proof (after_tok st st1 st2 SP M2 H2) as E2.
         eapply rok_impl; [apply IHc; [exact G2 | lia]|].
-        intros [ks st3] [G3 B3]. simpl in *. split; [exact G3|]. split; [lia|]. split; [intros _; lia | discriminate].
-      - simpl. split; [exact G1|]. rewrite (same_pos_B _ _ SP). split; [lia|]. split; [discriminate | intros _; exact SP]. }
+        intros [ks st3] [G3 [B3 SF3]]. simpl in *. split; [exact G3|]. split; [lia|]. split; [intros _; lia|].
+        split; [discriminate|].
+        eapply suf_trans; [apply (suf_same _ _ SP)|]. eapply suf_trans; eassumption.
+      - simpl. split; [exact G1|]. rewrite (same_pos_B _ _ SP). split; [lia|]. split; [discriminate|].
+        split; [intros _; exact SP | apply (suf_same _ _ SP)]. }
     eapply rok_bind; [exact R|].
-    intros [kids st2] [G2 [B2 [L2 S2]]]. simpl in G2, B2, L2, S2.
+    intros [kids st2] [G2 [B2 [L2 [S2 SF2]]]]. simpl in G2, B2, L2, S2, SF2.
     eapply rok_bind.
     { apply label_loop_spec; [eapply same_pos_good; [apply set_complete_same | exact G2]|].
       rewrite (same_pos_B _ _ (set_complete_same st2 false)). lia. }
-    intros [nd st4] [G4 [B4 [C4 Pr4]]]. simpl in *.
+    intros [nd st4] [G4 [B4 [C4 [Pr4 SF4]]]]. simpl in *.
     rewrite (same_pos_B _ _ (set_complete_same st2 false)) in *.
-    split; [exact G4|]. split; [lia|]. split.
+    split; [exact G4|]. split; [lia|].
+    assert (SFx : suf st st4).
+    { eapply suf_trans; [exact SF2|]. eapply suf_trans; [apply (suf_same _ _ (set_complete_same st2 false)) | exact SF4]. }
+    split; [|split; [|exact SFx]].
     + intro CT. destruct C4 as [C4|C4]; [|lia].
       unfold set_complete in C4. simpl in C4. congruence.
     + intros NR NC.
@@ -278,21 +320,26 @@ Proof.
       match goal with |- rok (let '(k1, s1) := ?x in _) _ => destruct x as [kids1 st1] end.
       simpl in SPx.
       eapply rok_bind; [apply require_next_spec; eapply same_pos_good; eauto|].
-      intros st2 [G2 [M2 [H2 _]]].
+      intros st2 [G2 [M2 [H2 [_ [_ SF2]]]]].
       pose proof (after_tok st st1 st2 SPx M2 H2) as E2.
       eapply rok_bind; [apply comma_loop_spec; [exact G2 | lia]|].
-      intros [kids2 st3] [G3 B3]. simpl in G3, B3.
+      intros [kids2 st3] [G3 [B3 SF3]]. simpl in G3, B3, SF3.
+      assert (SFa : suf st st3).
+      { eapply suf_trans; [apply (suf_same _ _ SPx)|]. eapply suf_trans; eassumption. }
       match goal with |- rok (if ?c then _ else _) _ => destruct c end.
       - pose proof (pull_same st3) as PS. destruct (pull_comments st3) as [cs st4]. simpl in PS.
         destruct PS as [SP4 _].
         eapply rok_impl; [apply IHc; [eapply same_pos_good; eauto | rewrite (same_pos_B _ _ SP4); lia]|].
-        intros [ks st5] [G5 B5]. simpl in *. rewrite (same_pos_B _ _ SP4) in B5. split; [exact G5 | lia].
+        intros [ks st5] [G5 [B5 SF5]]. simpl in *. rewrite (same_pos_B _ _ SP4) in B5. split; [exact G5|]. split; [lia|].
+        eapply suf_trans; [exact SFa|]. eapply suf_trans; [apply (suf_same _ _ SP4) | exact SF5].
       - eapply rok_impl; [apply IHc; [exact G3 | lia]|].
-        intros [ks st5] [G5 B5]. simpl in *. split; [exact G5 | lia]. }
+        intros [ks st5] [G5 [B5 SF5]]. simpl in *. split; [exact G5|]. split; [lia|].
+        eapply suf_trans; eassumption. }
     destruct (cur_is st RPAREN) eqn:ER.
     { eapply rok_bind; [apply require_next_spec; eapply same_pos_good; [apply set_nesting_same | exact G]|].
-      intros st1 [G1 [M1 [H1 _]]]. simpl.
-      pose proof (after_tok st _ st1 (set_nesting_same st _) M1 H1). split; [exact G1 | lia]. }
+      intros st1 [G1 [M1 [H1 [_ [_ SF1]]]]]. simpl.
+      pose proof (after_tok st _ st1 (set_nesting_same st _) M1 H1). split; [exact G1|]. split; [lia|].
+      eapply suf_trans; [apply (suf_same _ _ (set_nesting_same st (ps_nesting st - 1))) | exact SF1]. }
     (* a child *)
     set (st0 := if cur_is st LPAREN then set_nesting st (ps_nesting st + 1) else st).
     assert (SP0 : same_pos st0 st) by (subst st0; destruct (cur_is st LPAREN); [apply set_nesting_same | unfold same_pos; auto]).
@@ -301,11 +348,12 @@ Proof.
     pose proof (same_pos_trans _ _ _ SP1 SP0) as SPs.
     eapply rok_bind.
     { apply IHn; [eapply same_pos_good; eauto | rewrite (same_pos_B _ _ SPs); lia]. }
-    intros [child st2] [G2 [B2 [_ Pr2]]]. simpl in G2, B2, Pr2.
+    intros [child st2] [G2 [B2 [_ [Pr2 SF2]]]]. simpl in G2, B2, Pr2, SF2.
     rewrite !(cur_is_same st1 st _ SPs) in Pr2. specialize (Pr2 ER EM).
     rewrite (same_pos_B _ _ SPs) in *.
     eapply rok_impl; [apply IHc; [exact G2 | lia]|].
-    intros [ks st5] [G5 B5]. simpl in *. split; [exact G5 | lia].
+    intros [ks st5] [G5 [B5 SF5]]. simpl in *. split; [exact G5|]. split; [lia|].
+    eapply suf_trans; [apply (suf_same _ _ SPs)|]. eapply suf_trans; eassumption.
 Qed.
 
 Lemma parse_node_spec f st isint pre : good st -> (B st + 2 <= f)%nat ->
@@ -318,13 +366,14 @@ Lemma skip_semicolons_spec : forall f st tc, good st -> (B st + 1 <= f)%nat ->
 Proof.
   induction f as [|f IH]; intros st tc G HB; [lia|].
   cbn [skip_semicolons].
-  match goal with |- rok (if ?c then _ else _) _ => destruct c end; [|simpl; split; [exact G | lia]].
+  match goal with |- rok (if ?c then _ else _) _ => destruct c end; [|simpl; split; [exact G | split; [lia | apply suf_refl]]].
   eapply rok_bind; [apply require_next_spec; exact G|].
-  intros st1 [G1 [M1 [H1 _]]].
+  intros st1 [G1 [M1 [H1 [_ [_ SF1]]]]].
   pose proof (pull_same st1) as PS. destruct (pull_comments st1) as [cs st2]. simpl in PS. destruct PS as [SP _].
   pose proof (B_after_fetch st st1 M1 H1) as E.
   eapply rok_impl; [apply IH; [eapply same_pos_good; eauto | rewrite (same_pos_B _ _ SP); lia]|].
-  intros [c st3] [G3 B3]. simpl in *. rewrite (same_pos_B _ _ SP) in B3. split; [exact G3 | lia].
+  intros [c st3] [G3 [B3 SF3]]. simpl in *. rewrite (same_pos_B _ _ SP) in B3. split; [exact G3|]. split; [lia|].
+  eapply suf_trans; [exact SF1|]. eapply suf_trans; [apply (suf_same _ _ SP) | exact SF3].
 Qed.
 
 (* trailing `while tok == ";" and not is_eof(): next_token()` *)
@@ -333,31 +382,34 @@ Lemma skip_trailing_spec : forall f st, good st -> (B st + 1 <= f)%nat ->
 Proof.
   induction f as [|f IH]; intros st G HB; [lia|].
   cbn [skip_trailing].
-  destruct (cur_is st SEMI) eqn:ES; [|simpl; split; [exact G | lia]].
-  destruct (negb (ps_eof st)); [|simpl; split; [exact G | lia]].
+  destruct (cur_is st SEMI) eqn:ES; [|simpl; split; [exact G | split; [lia | apply suf_refl]]].
+  destruct (negb (ps_eof st)); [|simpl; split; [exact G | split; [lia | apply suf_refl]]].
   cbn [andb].
   pose proof (cur_is_hasc _ _ ES) as HC.
   pose proof (pull_same st) as PS. destruct (pull_comments st) as [cs st1]. simpl in PS. destruct PS as [SP _].
   eapply rok_bind; [apply next_or_none_spec; eapply same_pos_good; eauto|].
-  intros st2 [G2 [_ [_ D2]]].
+  intros st2 [G2 [_ [_ [D2 SF2]]]].
   assert (X : (B st2 < B st)%nat).
   { destruct D2 as [[M2 H2] | [M2 [M0 [H2 _]]]].
     - pose proof (after_tok st st1 st2 SP M2 H2). lia.
     - unfold B. rewrite M2, H2. unfold B in HB. lia. }
   eapply rok_impl; [apply IH; [exact G2 | lia]|].
-  intros st3 [G3 B3]. split; [exact G3 | lia].
+  intros st3 [G3 [B3 SF3]]. split; [exact G3|]. split; [lia|].
+  eapply suf_trans; [apply (suf_same _ _ SP)|]. eapply suf_trans; eassumption.
 Qed.
 
 (* one tree statement: Ok (no further tree / a tree, having consumed input) or ParseErr *)
 Lemma parse_tree_statement_spec fuel st : good st -> (B st + 2 <= fuel)%nat ->
   rok (parse_tree_statement o fuel st)
-      (fun r => good (snd r) /\ (B (snd r) <= B st)%nat /\ (fst r <> None -> (B (snd r) < B st)%nat)).
+      (fun r => good (snd r) /\ (B (snd r) <= B st)%nat /\ (fst r <> None -> (B (snd r) < B st)%nat)
+                /\ suf st (snd r)).
 Proof.
   intros G HB. unfold Newick.parse_tree_statement.
   pose proof (pull_same st) as PS. destruct (pull_comments st) as [tc st0]. simpl in PS. destruct PS as [SP0 _].
   eapply rok_bind; [apply skip_semicolons_spec; [eapply same_pos_good; eauto | rewrite (same_pos_B _ _ SP0); lia]|].
-  intros [tree_comments st1] [G1 B1]. simpl in G1, B1. rewrite (same_pos_B _ _ SP0) in B1.
-  destruct (ps_eof st1); [simpl; split; [exact G1|]; split; [lia | congruence]|].
+  intros [tree_comments st1] [G1 [B1 SF1]]. simpl in G1, B1, SF1. rewrite (same_pos_B _ _ SP0) in B1.
+  assert (SFa : suf st st1) by (eapply suf_trans; [apply (suf_same _ _ SP0) | exact SF1]).
+  destruct (ps_eof st1); [simpl; split; [exact G1|]; split; [lia|]; split; [congruence | exact SFa]|].
   destruct (process_tree_comments o tree_comments) as [rooted kept].
   set (st2 := set_nesting st1 (if cur_is st1 LPAREN then 1 else 0)).
   set (st3 := set_seen_map (set_complete st2 false) [] (ps_map st2)).
@@ -365,11 +417,12 @@ Proof.
   { subst st3 st2. eapply same_pos_trans; [apply set_seen_map_same|].
     eapply same_pos_trans; [apply set_complete_same | apply set_nesting_same]. }
   eapply rok_bind; [apply parse_node_spec; [eapply same_pos_good; eauto | rewrite (same_pos_B _ _ SP3); lia]|].
-  intros [t st4] [G4 [B4 [C4 _]]]. simpl in G4, B4, C4. rewrite (same_pos_B _ _ SP3) in *.
+  intros [t st4] [G4 [B4 [C4 [_ SF4]]]]. simpl in G4, B4, C4, SF4. rewrite (same_pos_B _ _ SP3) in *.
   destruct (ps_complete st4) eqn:EC; [|reflexivity].
   cbn [negb]. specialize (C4 eq_refl).
   eapply rok_bind; [apply skip_trailing_spec; [exact G4 | lia]|].
-  intros st5 [G5 B5]. simpl. split; [exact G5|]. split; [lia | intros _; lia].
+  intros st5 [G5 [B5 SF5]]. simpl. split; [exact G5|]. split; [lia|]. split; [intros _; lia|].
+  eapply suf_trans; [exact SFa|]. eapply suf_trans; [apply (suf_same _ _ SP3)|]. eapply suf_trans; eassumption.
 Qed.
 
 (* tree_iter: the iteration budget n suffices as soon as it exceeds the measure *)
@@ -379,7 +432,7 @@ Proof.
   induction n as [|n IH]; intros st acc G HF HN; [lia|].
   cbn [Newick.tree_iter].
   eapply rok_bind; [apply parse_tree_statement_spec; assumption|].
-  intros [[t|] st1] [G1 [B1 P1]]; simpl in *; [|exact I].
+  intros [[t|] st1] [G1 [B1 [P1 _]]]; simpl in *; [|exact I].
   assert ((B st1 < B st)%nat) by (apply P1; discriminate).
   apply IH; [exact G1 | lia | lia].
 Qed.
